@@ -263,6 +263,12 @@ func (mv *MessageView) BodyReader(opts ...Option) (io.ReadCloser, error) {
 		return ioutil.NopCloser(r), nil
 	}
 
+	if mv.bodyoffset == mv.traileroffset {
+		// No body was captured (headers only, Body nil): nothing to decode,
+		// not even a chunk terminator.
+		return ioutil.NopCloser(r), nil
+	}
+
 	if mv.chunked {
 		r = httputil.NewChunkedReader(r)
 	}
